@@ -49,6 +49,22 @@ fn kill_and_reap_child_proc_group(unreaped_pgid: Option<Pid>) -> Result<(), Erro
     }
 }
 
+/// Kills and reaps the child's process group if the evaluation is abandoned (its future dropped, e.g. because
+/// the target was reached) while the child has not ended yet.
+struct ProcGroupGuard(Option<Pid>);
+
+impl ProcGroupGuard {
+    fn disarm(&mut self) {
+        self.0 = None;
+    }
+}
+
+impl Drop for ProcGroupGuard {
+    fn drop(&mut self) {
+        let _ = kill_and_reap_child_proc_group(self.0.take());
+    }
+}
+
 #[allow(non_snake_case)]
 #[derive(Debug, Deserialize)]
 #[serde(deny_unknown_fields)]
@@ -128,15 +144,20 @@ impl AsyncObjectiveFunction for ObjFuncProcessDef {
 
         let abort_sig_future = abort_sig_rx.recv();
 
+        let mut group_guard = ProcGroupGuard(unreaped_pgid);
+
         tokio::select! {
             result = &mut child_result => {
+                group_guard.disarm();
                 return result
             }
             _ = &mut timeout_fut => {
+                group_guard.disarm();
                 kill_and_reap_child_proc_group(unreaped_pgid)?;
                 return Ok(None)
             }
             _ = abort_sig_future => {
+                group_guard.disarm();
                 kill_and_reap_child_proc_group(unreaped_pgid)?;
                 return Ok(None)
             }
